@@ -435,6 +435,19 @@ func pickSize(rnd *tr.Rand, rb *ring.Buffer, write bool) (int, string) {
 			return rnd.Intn(40), "random<40"
 		}
 	}
+	if h, t := rb.Peek(-1); !write && len(t) > 0 && rnd.Chance(30) {
+		// wrapped: sizes around the end of the backing array (two-segment paths)
+		switch rnd.Intn(5) {
+		case 0:
+			return clampArg(len(h) - 1), "head-1"
+		case 1:
+			return len(h), "head"
+		case 2:
+			return len(h) + 1, "head+1"
+		default:
+			return len(h) + rnd.Intn(len(t)+1), "head+random<=tail"
+		}
+	}
 	if !write && rnd.Chance(50) {
 		switch rnd.Intn(8) {
 		case 0:
